@@ -11,8 +11,10 @@ Imports model and spec only — no proof modules, no Mathlib — so that it link
 -/
 import PqlModel.Model.Lex
 import PqlModel.Model.Parse
+import PqlModel.Model.Walk
 import PqlModel.Spec.LexOracle
 import PqlModel.Spec.ParseOracle
+import PqlModel.Spec.WalkOracle
 import Driver.Proto
 open Pql
 
@@ -35,6 +37,22 @@ def fmtParse (r : List Stmt × Errs) : String :=
   let head := if r.2.isEmpty then "OK 0"
     else r.2.foldl (fun acc e => acc ++ " " ++ fmtErr e) ("ERR " ++ toString r.2.length)
   r.1.foldl (fun acc s => acc ++ " ;; " ++ s.dump) head
+
+def fmtEvent : WalkEvent → String
+  | .visit ty sp => ty ++ ":" ++ toString sp.start ++ ":" ++ toString sp.stop
+  | .visitNil => "NIL"
+  | .panic => "PANIC"
+
+def maskDecide (mask : String) : Nat → Bool :=
+  let bits := mask.toList.map (· == '1')
+  fun i => if bits.isEmpty then true else bits.getD (i % bits.length) true
+
+def fmtWalk (src : Bytes) (mask : String) : String :=
+  let r := parse src
+  if !r.2.isEmpty then "NOPARSE"
+  else
+    let traces := r.1.map fun st => " ".intercalate ((walk (maskDecide mask) (Node.ofStmt st)).map fmtEvent)
+    toString r.1.length ++ (if traces.isEmpty then "" else " ;; " ++ " ;; ".intercalate traces)
 
 structure Verdict where
   model : String
@@ -65,6 +83,21 @@ def runOp (op : String) (fields : List String) (impl : String) : Option Verdict 
   | "PARSE", [h] => do
     let s ← Bytes.ofHex h
     pure { model := fmtParse (parse s), oracle := ParseOracle.clauses s impl false }
+  | "WALK", [h, mask] => do
+    let s ← Bytes.ofHex h
+    -- oracle (unpruned walks only): the implementation's trace against the nodes of the tree
+    let oracle : List String :=
+      if mask != "-" then []
+      else if impl == "HANG" then ["c12-hang"]
+      else if impl.startsWith "PANIC" then ["c12-panic"]
+      else
+        let r := parse s
+        match impl.splitOn " ;; " with
+        | _ :: traces =>
+          if traces.length != r.1.length then []
+          else (r.1.zip traces).flatMap fun (st, tr) => WalkOracle.clauses st.dump tr
+        | [] => []
+    pure { model := fmtWalk s (if mask == "-" then "" else mask), oracle }
   | "PARSEV", [h] => do
     let s ← Bytes.ofHex h
     pure { model := fmtParse (parse s), oracle := ParseOracle.clauses s impl true }
